@@ -82,7 +82,7 @@ def main():
     rp = P.replay_tokens()
     if rp is not None:
         scenarios = [P.scenario_of_line(rp)] if rp and rp[0] == "srv" else []
-    outs, stats = P.run_scenarios(c, scenarios, P.monitor_c22, compare_c15_class=False)
+    outs, stats = P.run_scenarios(c, scenarios, P.monitor_c22, compare_c15_class=True)
     stats["environment_scenarios"] = len(env)
     c.cov["distribution"] = stats
     c.cov["rule"] = ("Server::handle on: truncations (every header offset, sampled/all later offsets), single-bit flips, extension-field length "
@@ -96,8 +96,6 @@ def main():
         "Server::handle on a generated datagram with a healthy environment is a violation",
         "sites 2002 (poisoned lock) and 2006 (key set with primary >= |keys|, C27) are modelled but not driven by the harness",
         "a panicking scenario is compared with the model only when it is a single clean request (its decoder summary is known by construction)",
-        "datagrams in C15's non-client/failed-authentication class are run and monitored but not compared with the model here "
-        "(%d scenarios; C15 owns them)" % stats["skipped_c15_class"],
     ]
     return c.finish()
 
